@@ -163,8 +163,10 @@ def run_property(pid, module, tier="quick", repo="/repo", replay=None, write_evi
             print("REPLAY property=%s obligation=%s %s: %s" % (pid, o.oid, o.function, "holds now" if o.ok else "STILL FAILS: " + o.message))
         violations = [o for o in still if not o.ok and not o.known]
 
+    printed = set()
     for o in fails:
-        if o.known:
+        if o.known and o.key() not in printed:
+            printed.add(o.key())
             print("KNOWN-FINDING: property=%s %s %s %s — %s" % (pid, o.oid, o.function, _short(o.construct, 80), o.known.get("what", o.message)))
     os.makedirs(os.path.join(EVIDENCE_DIR, "replay"), exist_ok=True)
     for i, o in enumerate(violations):
